@@ -18,7 +18,7 @@
      store <p|r> <offset> <j|p> <table> {<op>}*   -> store {<obs>}*
      table = - or entries jsonhex~<12 message fields comma separated>, joined by ;
      ops: first last get:i sl:L|L|.. slp:idx,term,type,datahex,exthex,sec|none,nsec dr:min,max
-          set:khex,vhex getk:khex setu:khex,n getu:khex reopen:j reopen:p convert
+          set:khex,vhex getk:khex setu:khex,n getu:khex reopen:j reopen:p kill:j kill:p convert
           raw:i putraw:i,hex fb:i msg:i (the replicated message of a command entry)
      obs: ok idx=n log=L notfound bytes=<hex|nil> u64=n err panic raw=<hex|json|absent> fb=<L|err|absent>
           msg=<M|panic|-|notfound|err>
@@ -214,6 +214,7 @@ Definition parse_op (s : string) : xop :=
   else if String.eqb k "setu" then XOp (OSetU64 (unhex_field (nth_s a 0)) (Nf (nth_s a 1)))
   else if String.eqb k "getu" then XOp (OGetU64 (unhex_field (nth_s a 0)))
   else if String.eqb k "reopen" then XOp (OReopen (String.eqb (nth_s p 1) "p"))
+  else if String.eqb k "kill" then XOp (OReopen (String.eqb (nth_s p 1) "p"))   (* SIGKILL + reopen: durability assumption *)
   else if String.eqb k "convert" then XOp OConvert
   else if String.eqb k "raw" then XRaw (Nf (nth_s a 0))
   else if String.eqb k "putraw" then XPutRaw (Nf (nth_s a 0)) (unhex_field (nth_s a 1))
